@@ -31,12 +31,17 @@ class Injected(Exception):
     pass
 
 
+class InjectedInterrupt(KeyboardInterrupt):
+    """'fails part-way for any reason' includes interruptions that are not `Exception`s"""
+
+
 class Recorder:
     """counts primitive calls made by save(); raises Injected at the k-th one"""
 
-    def __init__(self, target, fault=None):
+    def __init__(self, target, fault=None, exc_cls=None):
         self.target = os.path.abspath(target)
         self.fault = fault
+        self.exc_cls = exc_cls or Injected
         self.trace = []
         self.active = False
         self.zip_mode = False
@@ -47,7 +52,7 @@ class Recorder:
         idx = len(self.trace)
         self.trace.append(kind)
         if self.fault is not None and idx == self.fault:
-            raise Injected(f"injected at #{idx} ({kind})")
+            raise self.exc_cls(f"injected at #{idx} ({kind})")
 
 
 @contextlib.contextmanager
@@ -112,7 +117,7 @@ def instrumented(rec):
                 self._qv_closed = True
                 try:
                     rec.hit("zip:close")
-                except Injected:
+                except (Injected, InjectedInterrupt):
                     super().close()   # the OS handle is released; the archive stays in the staging path
                     raise
             return super().close()
@@ -254,7 +259,9 @@ def run_config(ctx, drv, recipe, old_recipe, store, mode, pre, idx, call="exact"
         target = setup_sandbox(base, store, pre, old_obj)
         pre_hash = tree_hash(target)
         sib_hash = (tree_hash(os.path.join(base, "sib.txt")), tree_hash(os.path.join(base, "sibdir")))
-        rec = Recorder(target, fault)
+        # every third fault position is an interruption (BaseException), the others an Exception
+        exc_cls = InjectedInterrupt if (fault is not None and (fault + idx) % 3 == 0) else Injected
+        rec = Recorder(target, fault, exc_cls)
         raised = None
         with instrumented(rec):
             rec.active = True
@@ -266,7 +273,7 @@ def run_config(ctx, drv, recipe, old_recipe, store, mode, pre, idx, call="exact"
                         obj.save(target, mode=mode)
                     else:
                         obj.save(target, mode=mode, store=store)
-            except Injected:
+            except (Injected, InjectedInterrupt):
                 raised = "Injected"
             except Exception as e:  # noqa
                 raised = type(e).__name__
